@@ -27,9 +27,76 @@ fn c01_exec(plan: &Value, t: &mut Trials) -> RunReport {
     crate::c01::exec(&plan, t)
 }
 
+fn c04_gen(seed: u64, run: u64, tier: Tier) -> Value {
+    serde_json::to_value(crate::c04::generate(seed, run, tier)).unwrap()
+}
+fn c04_exec(plan: &Value, t: &mut Trials) -> RunReport {
+    let plan: crate::c04::Plan = serde_json::from_value(plan.clone()).expect("bad C04 plan");
+    crate::c04::exec(&plan, t)
+}
+
+macro_rules! model_check {
+    ($gen:ident, $exec:ident, $id:literal) => {
+        fn $gen(seed: u64, run: u64, tier: Tier) -> Value {
+            serde_json::to_value(crate::cmodel::generate($id, seed, run, tier)).unwrap()
+        }
+        fn $exec(plan: &Value, t: &mut Trials) -> RunReport {
+            let plan: crate::cmodel::Plan = serde_json::from_value(plan.clone()).expect("bad plan");
+            crate::cmodel::exec(&plan, t)
+        }
+    };
+}
+model_check!(c08_gen, c08_exec, "C08");
+model_check!(c09_gen, c09_exec, "C09");
+model_check!(c10_gen, c10_exec, "C10");
+model_check!(c11_gen, c11_exec, "C11");
+model_check!(c12_gen, c12_exec, "C12");
+model_check!(c18_gen, c18_exec, "C18");
+
+const MODEL_RULE: &str = "histories = seeded sequences of public-API queries (node/edge/value/alias/index inserts, updates, removals by id, alias and search, explicit transactions with a seeded abort point) executed on one of the six database variants over SimFs, half of them interleaved with clean restarts (only durable state survives), reopening with another file-backed variant, optimize_storage and shrink_to_fit, plus benign I/O noise and the forced contended-read path; evaluations = points at which the complete observable state (every read query over every element, alias, index and the elements search, plus slice/selection probes) was compared with the abstract model; distinct_nontrivial = distinct histories (program hash) containing at least one removal and then either an id reuse or a hash-table rehash (probe)";
+const MODEL_ASSUME: &[&str] = &[
+    "the model takes new element ids from the database's answer (checking sign and freshness) and search targets from the database's own search result, so it carries no id-allocation or search semantics",
+    "fault-free and with-restarts configurations only; crash, abort and I/O-failure configurations are covered by C02/C03/C13/C32",
+];
+const DB_REAL: &[&str] = &["agdb: DbImpl, queries, TransactionMut, DbGraph, DbIndexedMap, DbIndexes, DbKeyValues, MultiMapStorage, DbVec, Storage, FileStorage, FileStorageMemoryMapped, MemoryStorage, AnyStorage, WriteAheadLog"];
+
+fn model_def(id: &'static str, generate: fn(u64, u64, Tier) -> Value, exec: fn(&Value, &mut Trials) -> RunReport) -> CheckDef {
+    CheckDef {
+        id,
+        level: "exploration",
+        generate,
+        exec,
+        steps: "/steps",
+        runs: |t| match t {
+            Tier::Quick => 4000,
+            Tier::Thorough => 400_000,
+        },
+        wall_cap_s: |t| match t {
+            Tier::Quick => 150,
+            Tier::Thorough => 1500,
+        },
+        rule: MODEL_RULE,
+        assumptions: MODEL_ASSUME,
+        real: DB_REAL,
+        stub: FS_STUB,
+        eval_unit: "full-state comparisons with the model",
+    }
+}
+
 pub const FS_STUB: &[&str] = &["disk: in-memory SimFs behind the cfg(agdb_verif) File/OpenOptions seam (crash = prefix of mutating calls + optional torn last write)"];
 
 pub fn all() -> Vec<CheckDef> {
+    let mut v = all_storage();
+    v.push(model_def("C08", c08_gen, c08_exec));
+    v.push(model_def("C09", c09_gen, c09_exec));
+    v.push(model_def("C10", c10_gen, c10_exec));
+    v.push(model_def("C11", c11_gen, c11_exec));
+    v.push(model_def("C12", c12_gen, c12_exec));
+    v.push(model_def("C18", c18_gen, c18_exec));
+    v
+}
+
+fn all_storage() -> Vec<CheckDef> {
     vec![CheckDef {
         id: "C01",
         level: "fault_enumeration",
@@ -52,6 +119,29 @@ pub fn all() -> Vec<CheckDef> {
         real: &["agdb::storage::Storage", "FileStorage", "FileStorageMemoryMapped", "WriteAheadLog", "StorageRecords"],
         stub: FS_STUB,
         eval_unit: "crash points",
+    },
+    CheckDef {
+        id: "C04",
+        level: "exploration",
+        generate: c04_gen,
+        exec: c04_exec,
+        steps: "/ops",
+        runs: |t| match t {
+            Tier::Quick => 20_000,
+            Tier::Thorough => 1_000_000,
+        },
+        wall_cap_s: |t| match t {
+            Tier::Quick => 120,
+            Tier::Thorough => 1500,
+        },
+        rule: "histories = seeded sequences (3-300 ops) of valid insert/insert-at (inside, at, beyond the end)/replace/resize/move/remove/optimize/clean-restart on MemoryStorage, FileStorage and FileStorageMemoryMapped, with benign I/O noise (short reads/writes, EINTR) and the contended-read path forced by buggify; evaluations = operations after which every live index is read back and compared with a byte-level model and every removed index must be unreadable (plus length == packed size after each defragmentation and after the final restart); distinct_nontrivial = distinct histories (program hash) that removed at least one value and then reused freed space (take_free / enlarge_in_place / enlarge_move_to probes fired)",
+        assumptions: &[
+            "only valid requests are issued (mutating a removed index is outside the statement; see DESIGN.md section 9)",
+            "fault-free configuration: restarts are clean (drop + reopen), no crash, no failing write",
+        ],
+        real: &["agdb::storage::Storage", "StorageRecords", "MemoryStorage", "FileStorage", "FileStorageMemoryMapped", "WriteAheadLog"],
+        stub: FS_STUB,
+        eval_unit: "operations checked against the model",
     }]
 }
 
